@@ -20,6 +20,9 @@ pub struct C04 {
     cases: Vec<Case>,
     /// (login version or none, exp, dir) -> defined opcodes
     opsets: Vec<(Option<u8>, Exp, Dir, Vec<u32>)>,
+    /// value sweep: one site per (target, enum definer): (case index, field path, undeclared values 0..=0xFF / 0..=0x1FF + specials)
+    vsites: Vec<(usize, u64, String, Vec<u64>)>,
+    v_total: u64,
 }
 
 fn width(ty: &str) -> Option<usize> {
@@ -86,7 +89,36 @@ impl C04 {
                 opsets.push((None, e, d, ctx.world.model(e).messages_dir(d).iter().filter_map(|c| c.opcode.map(|o| o as u32)).collect()));
             }
         }
-        C04 { ctx, cases, opsets }
+        // value sweep sites
+        let master = env_u64("VERIF_SEED", 1);
+        let mut seen = std::collections::BTreeSet::new();
+        let mut vsites = Vec::new();
+        for (ci, case) in cases.iter().enumerate() {
+            // several shapes per message, so that fields inside optional blocks and branches are found
+            for shape in 0..6u64 {
+                let mut wl = Rng::new(crate::rng::run_seed(master.wrapping_add(shape), &case.label(), 0xC04));
+                let Some(f) = encode_case(&ctx, case, &mut wl, &Knobs::default()) else { continue };
+                for fld in &f.fields {
+                    if let FKind::Enum { definer, declared, .. } = &fld.kind {
+                        let key = (case.login, if case.login.is_some() { Exp::Vanilla } else { case.exp }, definer.clone(), fld.len);
+                        if !seen.insert(key) {
+                            continue;
+                        }
+                        let max = if fld.len >= 8 { u64::MAX } else { (1u64 << (fld.len * 8)) - 1 };
+                        let top = if fld.len == 1 { 0xFF } else { 0x1FF };
+                        let mut vals: Vec<u64> = (0..=top).filter(|v| !declared.contains(v)).collect();
+                        for sp in [max, max - 1, max >> 1, (max >> 1) + 1, 0x1_0000 & max, 0x100_0000 & max] {
+                            if !declared.contains(&sp) && !vals.contains(&sp) {
+                                vals.push(sp);
+                            }
+                        }
+                        vsites.push((ci, shape, fld.path.clone(), vals));
+                    }
+                }
+            }
+        }
+        let v_total = vsites.iter().map(|x| x.3.len() as u64).sum();
+        C04 { ctx, cases, opsets, vsites, v_total }
     }
     fn o_sites(&self) -> u64 {
         self.opsets.iter().map(|s| if s.0.is_some() { 256 } else { 0x600 }).sum()
@@ -139,7 +171,7 @@ impl Check for C04 {
             Tier::Quick => 1,
             Tier::Thorough => 4,
         };
-        (self.cases.len() as u64 * ESLOTS * shapes + self.o_sites(), match tier {
+        (self.cases.len() as u64 * ESLOTS * shapes + self.o_sites() + self.v_total, match tier {
             Tier::Quick => env_u64("VERIF_C04_RUNS", 20_000),
             Tier::Thorough => env_u64("VERIF_C04_RUNS", 1_000_000),
         })
@@ -150,12 +182,49 @@ impl Check for C04 {
         let mut sr = rng.fork("schedule");
         let master = env_u64("VERIF_SEED", 1);
         let (n_enum, _) = self.plan(tier);
+        let n_enum_with_v = n_enum;
+        let n_enum = n_enum - self.v_total;
         let e_total = n_enum - self.o_sites();
         let fl = match i % 3 {
             0 => Flavour::Sync,
             1 => Flavour::Tokio,
             _ => Flavour::Astd,
         };
+        // ---------------- V sites: every small value of every enum definer once
+        if i >= n_enum && i < n_enum_with_v {
+            let mut k = i - n_enum;
+            for (ci, shape, path, vals) in &self.vsites {
+                if k >= vals.len() as u64 {
+                    k -= vals.len() as u64;
+                    continue;
+                }
+                let case = self.cases[*ci].clone();
+                let v = vals[k as usize];
+                let mut wl = Rng::new(crate::rng::run_seed(master.wrapping_add(*shape), &case.label(), 0xC04));
+                let Some(f) = encode_case(&self.ctx, &case, &mut wl, &Knobs::default()) else { break };
+                let Some(fld) = f.fields.iter().find(|x| &x.path == path && matches!(x.kind, FKind::Enum { .. })) else { break };
+                let orig = intact_stream(&case, &f);
+                let mut plain = f.plain.clone();
+                let le = v.to_le_bytes();
+                for b in 0..fld.len.min(8) {
+                    plain[fld.off + b] = le[b];
+                }
+                let body = body_to_wire(&plain, f.comp_start);
+                let stream = match case.login {
+                    Some(_) => plain.clone(),
+                    None => {
+                        let mut s = world_header(case.exp, case.dir, f.opcode, body.len());
+                        s.extend_from_slice(&body);
+                        s
+                    }
+                };
+                let (definer, upcast) = if let FKind::Enum { definer, upcast, .. } = &fld.kind { (definer.clone(), *upcast) } else { (String::new(), false) };
+                return json!({"kind": "E", "label": format!("{}:{}={:#x}", case.label(), fld.path, v), "case": case_json(&case), "field": fld.path, "definer": definer, "upcast": upcast, "value_sweep": true,
+                    "orig": bytes_to_json(&orig), "stream": bytes_to_json(&stream), "number": v, "len": fld.len, "entry": if k % 2 == 0 { "enum".to_string() } else { format!("expect:{}", case.name) }, "flavour": fl.name(),
+                    "sched": sched_json(&Schedule::random(&mut sr, stream.len() + 8, fl == Flavour::Sync))});
+            }
+            return json!({"label": "vsite", "case": case_json(&self.cases[0]), "skip": "no-site"});
+        }
         // ---------------- O sites
         if i >= e_total && i < n_enum {
             let mut k = i - e_total;
@@ -270,8 +339,8 @@ impl Check for C04 {
             if let FKind::Enum { declared, upcast, definer } = &fld.kind {
                 let vals = undeclared_values(declared, fld.len, *upcast);
                 if !vals.is_empty() {
-                    // prefer aliases for upcast fields on the last value slot
-                    let v = if *upcast && vi == 2 { *vals.last().unwrap() } else { vals[vi % vals.len()] };
+                    // undeclared_values interleaves plain candidates and (for upcast fields) aliases
+                    let v = vals[vi % vals.len()];
                     let mut plain = f.plain.clone();
                     let le = v.to_le_bytes();
                     for b in 0..fld.len.min(8) {
@@ -349,6 +418,9 @@ impl Check for C04 {
         let res = guarded(|| read_any(&case, &entry, fl, &mut r, budget));
         o.bytes += stream.len() as u64;
         o.count(&format!("site_{}", kind), 1);
+        if sc["value_sweep"] == true {
+            o.count("site_E_value_sweep", 1);
+        }
         o.count(&format!("entry_{}_{}", entry_name, fl.name()), 1);
         let number = sc["number"].as_u64();
         let len = sc["len"].as_u64().unwrap_or(4) as usize;
